@@ -128,10 +128,20 @@ def extra_graph(k, s):
         return getattr(Schema("s"), "tbl")  # table created through Schema.__getattr__
     if k == 6:
         return Table("t").for_(Field("sys").between(s, "z"))
+    if k == 7:  # a NOT wrapper on which a dynamically forwarded method was already called once
+        n = Not(t.a == s)
+        n.like("x%")
+        n.isin([1, 2])
+        return n
+    if k == 8:  # a table / schema whose dynamic attribute lookup was used before
+        tb = Table("t", schema="s")
+        tb.some_column
+        tb["other"]
+        return tb
     raise AssertionError(k)
 
 
-NEXTRA = 7
+NEXTRA = 9
 
 
 @harness(
@@ -158,7 +168,16 @@ def c15_extra(k: int, mech: int, s: str) -> int:
     ok = D is not X and same_structure(D, X) and same_nt(snap_nt(X), sx)
     if ok and hasattr(X, "get_sql"):
         ok = X.get_sql(dctx(0)) == D.get_sql(dctx(0)) and X.get_sql(dctx(1)) == D.get_sql(dctx(1))
-    if ok and k >= 4:
+    if ok and k == 7:
+        # forwarded methods of the duplicate work on the duplicate's own term
+        a = X.like("q").get_sql(dctx(0))
+        b = D.like("q").get_sql(dctx(0))
+        ok = a == b
+        if ok:
+            d2 = D.replace_table(Table("t"), Table("zz"))
+            ok = d2.like("q").get_sql(DEFAULT_SQL_CONTEXT.copy(with_namespace=True)) == \
+                Not(Table("zz").a == s).like("q").get_sql(DEFAULT_SQL_CONTEXT.copy(with_namespace=True))
+    if ok and k >= 4 and k != 7:
         # a builder call on the duplicate leaves the original alone
         D.as_("zz")
         Y = D.as_("zz")
